@@ -133,10 +133,16 @@ def _q(c, form):
 
 
 def _vals(tokens):
-    """text tokens (possibly nested lists) -> float64 array of the numbers they stand for"""
+    """text tokens (possibly nested lists) -> float64 array of the numbers they stand for (python's float() of each token)"""
     if tokens and isinstance(tokens[0], list):
-        return np.array([[W.value(t) for t in row] for row in tokens], dtype=np.float64).reshape((len(tokens), len(tokens[0])))
-    return np.array([W.value(t) for t in tokens], dtype=np.float64)
+        shape = (len(tokens), len(tokens[0]))
+        text = " ".join(" ".join(row) for row in tokens)
+    else:
+        shape = (len(tokens),)
+        text = " ".join(tokens)
+    if "D" in text:
+        text = text.replace("D", "E")
+    return np.array([float(t) for t in text.split()], dtype=np.float64).reshape(shape)
 
 
 def _pow10(a):
@@ -248,6 +254,7 @@ class Env:
         else:
             self.path, self.adas_arg = os.path.join(self.adas, self.rel), self.adas
         self.add(self.path, self.text)
+        self.adas_files = _files(self.adas)
         return self
 
     def add(self, path, text):
@@ -258,11 +265,15 @@ class Env:
     def second(self, rel, text):
         p = os.path.join(self.adas, rel)
         self.add(p, text)
+        self.adas_files = _files(self.adas)
         return p
 
     def check_sources(self, ctx):
+        ctx.check(os.path.isfile(self.path), "caller-owned/file", "the ADF file was removed / moved by parse / install")
         with open(self.path) as f:
             ctx.check(f.read() == self.text, "caller-owned/file", "the ADF file was modified by parse / install")
+        ctx.check(_files(self.adas) == self.adas_files, "caller-owned/adas-tree",
+                  lambda: "files under adas_path changed: %r" % (sorted(set(_files(self.adas)) ^ set(self.adas_files))[:4],))
         if self.forms["repo"] == "explicit":
             _no_stray(ctx, "install")
         else:
@@ -385,14 +396,14 @@ def adf11_cases(draw):
     resolved = draw(st.booleans())
     if z >= 10 and draw(st.integers(0, 3)) == 0:          # many charge states: two-digit Z1 in the block headers
         nblk = draw(st.integers(10, min(z, 15 if resolved else 40)))
-        while nd * nt * nblk > 12000:
+        while nd * nt * nblk * nblk > 60000:       # the repository rewrites the whole file once per charge state
             if nd >= nt:
                 nd = (nd + 1) // 2
             else:
                 nt = (nt + 1) // 2
     else:
         nblk = draw(st.one_of(st.integers(1, z), st.just(z), st.integers(1, min(z, 3))))
-        nblk = max(1, min(nblk, 9000 // (nd * nt)))
+        nblk = max(1, min(nblk, 9000 // (nd * nt), int((60000 / (nd * nt)) ** 0.5)))
     if resolved:
         nblk = min(nblk, 15)       # the line of metastable counts (16I5) stays a single line
     z1min = draw(st.one_of(st.just(1), st.integers(1, z - nblk + 1)))
@@ -484,16 +495,23 @@ def _check_parse_adf11(ctx, case, d, el, got, tag):
         _eq(ctx, _item(ctx, g, "rates", tag + "parse/rates"), _vals(b["table"]).T, tag + "parse/rates", info)
 
 
-def _check_repo_adf11(ctx, case, d, el, repo, tag, absent=True):
-    """10**x, cm^-3 -> m^-3, cm^3 -> m^3, charge = Z1 - 1 for scd / plt"""
+def _check_repo_adf11(ctx, case, d, el, repo, tag, absent=True, sample=False):
+    """10**x, cm^-3 -> m^-3, cm^3 -> m^3, charge = Z1 - 1 for scd / plt.  sample: first, middle and last block, single read"""
     cls, off = case["cls"], ADF11[case["cls"]][0]
     lin_ne, lin_te = _pow10(_vals(d["dens"])) * 1e6, _pow10(_vals(d["temp"]))
     z1s = [b["z1"] for b in d["blocks"]]
     ctx.label("ep:get:" + cls)
-    for b in d["blocks"]:
+    blocks = d["blocks"]
+    if sample and len(blocks) > 3:
+        blocks = [blocks[0], blocks[len(blocks) // 2], blocks[-1]]
+    for b in blocks:
         q = b["z1"] + off
         info = "(Z1=%d -> charge %d)" % (b["z1"], q)
-        g = _get_twice(ctx, tag + "get/" + cls, lambda: _get_adf11(case, el, q, repo))
+        if sample:
+            with ctx.cut(tag + "get/" + cls):
+                g = _get_adf11(case, el, q, repo)
+        else:
+            g = _get_twice(ctx, tag + "get/" + cls, lambda: _get_adf11(case, el, q, repo))
         _eq(ctx, _item(ctx, g, "ne", tag + "repo/ne"), lin_ne, tag + "repo/ne", info)
         _eq(ctx, _item(ctx, g, "te", tag + "repo/te"), lin_te, tag + "repo/te", info)
         _eq(ctx, _item(ctx, g, "rate", tag + "repo/rate"), _pow10(_vals(b["table"]).T) * 1e-6, tag + "repo/rate", info)
@@ -550,7 +568,7 @@ def run_adf11(case, ctx):
             _install(ctx, ADF11[case2["cls"]][1], _args_adf11(case2, el), env, dict(PLAIN, repo=forms["repo"]), rel=rel2)
         env.check_sources(ctx)
         _check_repo_adf11(ctx, case2, d2, el, env.repo_arg, "second/", absent=False)
-        _check_repo_adf11(ctx, case, d, el, env.repo_arg, "after-second/", absent=False)
+        _check_repo_adf11(ctx, case, d, el, env.repo_arg, "after-second/", absent=False, sample=True)
 
 
 # ============================================================================================== ADF15
@@ -1178,7 +1196,7 @@ def run_negative(case, ctx):
         with Env(_rel_adf15(f), text, forms) as env:
             _must_reject(ctx, "adf15-absent-block", env, lambda: P.parse_adf15(el, q, env.path, header_format=_hf(f)),
                          lambda: _install(ctx, "install_adf15", (el, q), env, forms, header_format=_hf(f)))
-    elif kind == "missing-file":            # documented: ValueError('Could not locate the specified ADAS file.')
+    elif kind == "missing-file":            # documented: ValueError('Could not locate the specified ADAS file.'); any error accepted
         ctx.nt()
         fn = case["fn"]
         ctx.label("missing:" + fn, "where:" + case["where"])
@@ -1187,7 +1205,7 @@ def run_negative(case, ctx):
                                "lt0": 0, "dash": 80, "lead": "", "iprt": True, "project": 0, "seed": 1})
         with Env("adf11/scd96/scd96_c.dat", text, forms) as env:
             rel = {"no-such-file": "adf11/scd96/scd96_x.dat", "directory": "adf11/scd96", "other-class": "adf11/acd96/scd96_c.dat"}[case["where"]]
-            _must_reject(ctx, "missing-file", env, None, lambda: _install(ctx, fn, _dummy_args(fn), env, forms, rel=rel), exc=(ValueError,))
+            _must_reject(ctx, "missing-file", env, None, lambda: _install(ctx, fn, _dummy_args(fn), env, forms, rel=rel))
     elif kind == "adf15-header":            # header '/C + 1 PHOTON EMISSIVITY COEFFICIENTS/' requested as another element / charge
         ctx.nt(_nt_adf15(f))
         ctx.label("how:" + case["how"])
